@@ -192,6 +192,10 @@ struct Config
         bool oracle_valid = true;
     };
     std::array<Slot, 8> vec;
+    // long-lived iterator objects, one pair per vector name: they are only ever ASSIGNED to (from the vector's current
+    // iterators) and used afterwards, across whatever happened to the vector in between
+    std::array<std::unique_ptr<typename Vector::const_iterator>, 8> held_const;
+    std::array<std::unique_ptr<typename Vector::iterator>, 8> held_mut;
     std::array<std::unique_ptr<Element>, 8> elems;
     std::array<Vals, 8> eoracle;
     std::array<bool, 8> eoracle_valid{};
@@ -1091,6 +1095,32 @@ struct Config
                     if ((*ci).data_begin() != want || ci->data_end() != y[k].data_end()) violation("C11:converting-iterator-assignment");
                     if ((*mi).data_begin() != want || (*cc).data_begin() != want) violation("C11:iterator-assignment");
                     if (ci.index() != k || (ci - cy.begin()) != static_cast<std::ptrdiff_t>(k)) violation("C11:iterator-assignment-index");
+                }
+            }
+            // an iterator object that has lived through the vector's history (reallocation, assignment into the same block
+            // with other fixed sizes, swap) and is assigned from the vector's current iterators denotes the current elements
+            if (n > 0)
+            {
+                if (!held_const[a])
+                {
+                    held_const[a] = std::make_unique<typename Vector::const_iterator>(cx.begin());
+                    held_mut[a] = std::make_unique<typename Vector::iterator>(x.begin());
+                }
+                for (std::ptrdiff_t k = 0; k < n; ++k)
+                {
+                    *held_const[a] = x.begin() + k;   // converting assignment
+                    *held_mut[a] = x.begin() + k;     // same-type assignment
+                    const auto ref = x[static_cast<std::size_t>(k)];
+                    if ((**held_const[a]).data_begin() != ref.data_begin() || (**held_const[a]).data_end() != ref.data_end() ||
+                        held_const[a]->data() != ref.data_begin())
+                        violation("C11:held-const-iterator-assigned-from-current-iterator-denotes-other-bytes");
+                    if ((**held_mut[a]).data_begin() != ref.data_begin() || (**held_mut[a]).data_end() != ref.data_end())
+                        violation("C11:held-iterator-assigned-from-current-iterator-denotes-other-bytes");
+                    typename Vector::const_iterator cc = cx.cbegin();
+                    *held_const[a] = cx.cbegin() + k;  // const_iterator = const_iterator
+                    if ((**held_const[a]).data_begin() != ref.data_begin() || (**held_const[a]).data_end() != ref.data_end())
+                        violation("C11:held-const-iterator-assignment");
+                    (void)cc;
                 }
             }
             out << "iter n=" << n << " pairs=" << checked << "\n";
